@@ -232,6 +232,16 @@ class Structure:
                         idx += rest.pop(0)[1]
                 for _k2, ii in rest:
                     idx += ii
+        hold_ter, release_at = None, None
+        if order == "waters-before-ter" and chain_order is None:
+            # the waters of a chain listed BEFORE that chain's TER record (as many programs write them)
+            first = [i for i in idx if self.records[i]["group"][0] in ("chain", "na") and self.records[i]["group"][1] == 0
+                     and self.records[i]["group"][0] == self.records[idx[0]]["group"][0]]
+            wat = [i for i in idx if self.records[i]["group"][0] == "water"]
+            if first and wat and first[-1] in self.ters and idx[: len(first)] == first:
+                rest_ = [i for i in idx if i not in set(first) | set(wat)]
+                idx = first + wat + rest_
+                hold_ter, release_at = first[-1], len(first) + len(wat) - 1
         out = []
         for n, i in enumerate(idx):
             r = self.records[i]
@@ -247,8 +257,10 @@ class Structure:
             elif cols == "left-names":
                 ln = ln[:12] + r["name"][:4].ljust(4) + ln[16:]  # atom names left-justified in columns 13-16
             out.append(ln)
-            if i in self.ters:
+            if i in self.ters and i != hold_ter:
                 out.append("TER")
+            if hold_ter is not None and n == release_at:
+                out.append("TER")  # the first chain's TER comes after the waters that were listed with it
         if end:
             out.append("END")
         return out
